@@ -715,6 +715,10 @@ def check_C14(rep, fl):
     check_contains_or_add(rep, fl, rule="R14.2")
     check_reset_complete(rep, fl, "R14.4", only=(BLOOM,))
     check_counters_plumbing(rep, fl, rule="R14.7")
+    # "reset/clear empties the filter completely", also when asked through the cache: policy.clear() reaches the
+    # estimator's clear on every path (no `nothing tracked` shortcut - lookups of absent keys are in the filter too)
+    import props_life
+    props_life.check_policy_clear(rep, fl, rule="R14.4")
     # "after adding up to n distinct hashes": the doorkeeper is built for num_counters entries and is emptied after
     # that many recordings - every hash it receives passes the per-key window count (increment -> try_reset), also
     # for a batch
